@@ -35,6 +35,13 @@ var vForms = [][]vSeg{
 	{{"a", gBlank0}, {"&&", gBreak}, {"b", gBlank0}, {"||", gBreak}, {"!", gBlank0}, {"c", 0}},
 	{{"a", gBlank1}, {"in", gBreak1}, {"b", 0}},
 	{{"-", gBlank0}, {"a", gBlank0}, {"%", gBreak}, {"-", gBlank0}, {"1", 0}},
+	// every operand kind in front of a sign-like operator that is followed by a digit
+	{{"`f`", gBlank0}, {"-", gBreak}, {"1", gBlank0}, {"+", gBreak}, {"`g h`", 0}},
+	{{"a", gBlank0}, {"[", gBreak}, {"0", gBlank0}, {"]", gBlank0}, {"-", gBreak}, {"1", gBlank0}, {"+", gBreak}, {"2", 0}},
+	{{"f", gBlank0}, {"(", gBreak}, {"x", gBlank0}, {")", gBlank0}, {"-", gBreak}, {"1", 0}},
+	{{"2", gBlank0}, {"-", gBreak}, {"1", gBlank0}, {"+", gBreak}, {"1.5", gBlank0}, {"-", gBreak}, {"0x1f", 0}},
+	{{"x", gBlank0}, {"=", gBreak}, {"true", gBlank0}, {"-", gBreak}, {"1", gBlank0}, {"+", gBreak}, {"nil", gBlank0}, {"-", gBreak}, {"2", 0}},
+	{{"x", gBlank0}, {"=", gBreak}, {"\"s\"", gBlank0}, {"+", gBreak}, {"1", gBlank0}, {"-", gBreak}, {"'t'", gBlank0}, {"-", gBreak}, {"3", 0}},
 	// parentheses, calls with positional and named arguments
 	{{"(", gBreak}, {"a", gBlank0}, {"-", gBreak}, {"b", gBlank0}, {")", gBlank0}, {"/", gBreak}, {"c", 0}},
 	{{"f", gBlank0}, {"(", gBreak}, {"a", gBlank0}, {",", gBreak}, {"x", gBlank0}, {"=", gBreak}, {"1", gBlank0}, {")", 0}},
